@@ -11,7 +11,7 @@ cd $R || exit 2
 if [ -n "$(git status --porcelain | grep -v '^??')" ]; then echo "$R not clean"; exit 2; fi
 git apply $SD/patch.diff || { echo "PATCH DOES NOT APPLY to $R HEAD"; exit 3; }
 for p in $PROPS; do
-  out=$(cd /verif && GOSYM_REPO=$R GOSYM_EVIDENCE_DIR=/tmp/seed/evidence GOSYM_NOWITNESS=1 ./check $p quick 2>&1); rc=$?
+  out=$(cd /verif && GOSYM_REPO=$R GOSYM_EVIDENCE_DIR=${SEEDEVID:-/tmp/seed/evidence} GOSYM_NOWITNESS=1 ./check $p quick 2>&1); rc=$?
   echo "$out" | grep -E "^(VIOLATION|KNOWN|UNCONFIRMED|ERROR|  harness|check )" | cut -c1-260 | head -12
   echo "SEEDCHECK $(basename $SD) check=$p exit=$rc"
 done
